@@ -557,6 +557,14 @@ def _begin_call(op: Operator, hs: dict[str, Any], hid: str, kwargs: dict[str, An
         c.diff = plain(kwargs.get('diff'))
     started = kwargs.get('started')
     c.started = started.isoformat() if started is not None else None
+    if hs.get('snapshot'):
+        # a probe: what do the in-memory indices look like right now?
+        snap: dict[str, Any] = {}
+        for iid in hs['snapshot']:
+            index = kwargs.get(iid)
+            if index is not None:
+                snap[iid] = {repr(k): sorted((plain(v) for v in index[k]), key=repr) for k in index}
+        c.extra = {'indices': snap}
     c.t0 = sim.now
     c.seq0 = sim.log('h+', op.actor, hid, c.uid, c.n, c.retry, c.reason, c.rv)
     run.calls.append(c)
